@@ -9,9 +9,9 @@ From Coq Require Import ZifyBool Arith PeanoNat.
 Definition pvalid (P : params) : Prop :=
   1 <= i_init P /\ i_init P <= i_core P /\ i_core P <= i_max P /\ 0 <= i_cap P /\ 0 < i_rd P.
 
-Lemma pool_new_valid initGo queueSize opts init core mx cap rn rd fa fb base :
+Lemma pool_new_valid initGo queueSize opts init core mx cap rn rd fa fb fc base :
   pool_new initGo queueSize opts = CtOk init core mx cap rn rd ->
-  pvalid (mkPar init core mx cap rn 1 fa fb base) /\ init = initGo /\ cap = queueSize.
+  pvalid (mkPar init core mx cap rn 1 fa fb base fc) /\ init = initGo /\ cap = queueSize.
 Proof.
   unfold pool_new, pvalid. cbn [i_init i_core i_max i_cap i_rd].
   destruct (initGo <? 1) eqn:E1; [discriminate|].
